@@ -9,6 +9,7 @@
   2. `Float32`: see the second half of the file.
 -/
 import RosuModel.Lemmas.FloatCoordLaws
+import RosuModel.Lemmas.FloatExactOps
 namespace Rosu.FTR
 open Rosu FCL
 
@@ -191,5 +192,415 @@ example : toI32Bits fmt32 0x40300000 = 2 ∧ toI32Bits fmt32 0xC0300000 = -2 ∧
 example : mag fmt32 0xC0300000 < fmt32.infBits ∧ magM fmt32 0xC0300000 = 0xB00000 ∧ magE fmt32 0xC0300000 = -22 ∧
     truncMag (magM fmt32 0xC0300000) (magE fmt32 0xC0300000) = 2 ∧ negBit fmt32 0xC0300000 ∧
     truncInt fmt32 0xC0300000 = -2 := by decide +kernel
+
+
+/-! ## 2. `Float32`: the unpacked view of a pattern is `decompose` -/
+
+section F32
+open Float.Model Float.Model.UnpackedFloat FMR FMO RtObjects
+
+theorem sign32 : fmt32.signBit = 2 ^ 31 := by decide
+theorem inf32 : fmt32.infBits = 0x7F800000 := by decide
+
+theorem decompose32 (r : Nat) : decompose fmt32 r =
+    (if r / 2 ^ 23 = 0 then (r % 2 ^ 23, -149) else (r % 2 ^ 23 + 2 ^ 23, ((r / 2 ^ 23 : Nat) : Int) - 127 - 23)) := by
+  unfold decompose
+  rfl
+
+theorem fields32 (n : Nat) : n / 2 ^ 23 % 2 ^ 8 = n % 2 ^ 31 / 2 ^ 23 ∧ n % 2 ^ 31 % 2 ^ 23 = n % 2 ^ 23 := by
+  refine ⟨?_, ?_⟩
+  · rw [show (2 : Nat) ^ 31 = 2 ^ 23 * 2 ^ 8 by decide, Nat.mod_mul_right_div_self]
+  · exact Nat.mod_mod_of_dvd _ (by decide)
+
+/-- the unpacked view of a finite non-zero binary32 pattern is `± magM · 2^magE`. -/
+theorem unpackNat32_fin (n : Nat) (h0 : mag fmt32 n ≠ 0) (hfin : mag fmt32 n < fmt32.infBits) :
+    IsFin (FM.unpackNat 23 8 n) (FM.signOf (n / 2 ^ 31)) (magM fmt32 n) (magE fmt32 n) := by
+  unfold magM magE mag at *
+  rw [sign32] at *
+  rw [inf32] at hfin
+  obtain ⟨e1, e2⟩ := fields32 n
+  rw [decompose32, e2, ← e1]
+  unfold FM.unpackNat IsFin
+  generalize n / 2 ^ 23 % 2 ^ 8 = E at *
+  have hE : E ≠ 2 ^ 8 - 1 := by omega
+  rw [if_neg hE]
+  by_cases hE0 : E = 0
+  · subst hE0
+    rw [if_pos rfl, if_pos rfl]
+    have hFr : n % 2 ^ 23 ≠ 0 := by omega
+    rw [dif_neg hFr]
+    exact ⟨Nat.pos_of_ne_zero hFr, rfl⟩
+  · rw [if_neg hE0, if_neg hE0]
+    refine ⟨by show 0 < n % 2 ^ 23 + 2 ^ 23; omega, ?_⟩
+    show finite _ (2 ^ 23 + n % 2 ^ 23) _ _ = finite _ (n % 2 ^ 23 + 2 ^ 23) _ _
+    congr 1
+    · omega
+    · show (E : Int) - (((2 ^ (8 - 1) - 1 : Nat) : Int) + (23 : Int)) = (E : Int) - 127 - 23
+      omega
+
+theorem unpackNat32_zero (n : Nat) (h0 : mag fmt32 n = 0) : FM.unpackNat 23 8 n = .zero (FM.signOf (n / 2 ^ 31)) := by
+  unfold mag at h0
+  rw [sign32] at h0
+  obtain ⟨e1, e2⟩ := fields32 n
+  unfold FM.unpackNat
+  rw [if_neg (by omega), if_pos (by omega), dif_pos (by omega)]
+
+
+theorem canon_abs (spec : Format) (u : UnpackedFloat) (h : Canon spec u) : Canon spec u.abs := by
+  cases u <;> exact h
+
+theorem inRange_abs (spec : Format) (u : UnpackedFloat) (h : InRange spec u) : InRange spec u.abs := by
+  cases u <;> exact h
+
+/-- `|x|` unpacked is the unpacked `x` with the sign cleared (`f32::abs` is exact). -/
+theorem up_abs32 (x : Float32) : (Scalar.abs x : Float32).toModel.unpack = x.toModel.unpack.abs := by
+  show repack Format.binary32 x.toModel.unpack.abs = _
+  rcases repack_canon Format.binary32 (by decide) _ (canon_abs _ _ (FX.canon_float32 x)) with h | ⟨s, m, e, hm, _, hnr, _⟩
+  · exact h
+  · exact absurd (inRange_abs _ _ (unpack_inRange Format.binary32 (by decide) x.toModel.toBits.toBitVec)) hnr
+
+theorem up_neg32 (x : Float32) : (-x : Float32).toModel.unpack = x.toModel.unpack.neg := by
+  show repack Format.binary32 x.toModel.unpack.neg = _
+  have hc : Canon Format.binary32 x.toModel.unpack.neg := by
+    have := FX.canon_float32 x; revert this; cases x.toModel.unpack <;> exact id
+  have hr : InRange Format.binary32 x.toModel.unpack.neg := by
+    have := unpack_inRange Format.binary32 (by decide) x.toModel.toBits.toBitVec
+    revert this; show InRange _ x.toModel.unpack → _; cases x.toModel.unpack <;> exact id
+  rcases repack_canon Format.binary32 (by decide) _ hc with h | ⟨s, m, e, hm, _, hnr, _⟩
+  · exact h
+  · exact absurd hr hnr
+
+
+/-- the integer `k` (as the canonical pair `(k·2^a, −a)`) is `≤ m·2^e`, from the cross-multiplied comparison. -/
+theorem valLE_int_le (k a m : Nat) (e : Int)
+    (h1 : 0 ≤ e → k ≤ m * 2 ^ e.toNat) (h2 : e < 0 → k * 2 ^ (-e).toNat ≤ m) :
+    ValLE (k * 2 ^ a) (-(a : Int)) m e := by
+  unfold ValLE
+  by_cases he : 0 ≤ e
+  · have hmin : min (-(a : Int)) e = -(a : Int) := by omega
+    rw [hmin, Int.sub_self, Int.toNat_zero, Nat.pow_zero, Nat.mul_one,
+      show (e - -(a : Int)).toNat = e.toNat + a by omega, Nat.pow_add, ← Nat.mul_assoc]
+    exact Nat.mul_le_mul_right _ (h1 he)
+  · have h2' := h2 (by omega)
+    obtain ⟨c, hc⟩ : ∃ c : Nat, e = -(c : Int) := ⟨(-e).toNat, by omega⟩
+    subst hc
+    rw [show (- -(c : Int)).toNat = c by omega] at h2'
+    by_cases hac : a ≤ c
+    · have hmin : min (-(a : Int)) (-(c : Int)) = -(c : Int) := by omega
+      rw [hmin, Int.sub_self, Int.toNat_zero, Nat.pow_zero, Nat.mul_one,
+        show (-(a : Int) - -(c : Int)).toNat = c - a by omega, Nat.mul_assoc, ← Nat.pow_add,
+        show a + (c - a) = c by omega]
+      exact h2'
+    · have hmin : min (-(a : Int)) (-(c : Int)) = -(a : Int) := by omega
+      rw [hmin, Int.sub_self, Int.toNat_zero, Nat.pow_zero, Nat.mul_one,
+        show (-(c : Int) - -(a : Int)).toNat = a - c by omega]
+      calc k * 2 ^ a = k * 2 ^ c * 2 ^ (a - c) := by
+            rw [Nat.mul_assoc, ← Nat.pow_add, show c + (a - c) = a by omega]
+        _ ≤ m * 2 ^ (a - c) := Nat.mul_le_mul_right _ h2'
+
+/-- … and `k > m·2^e` refutes it. -/
+theorem not_valLE_int_gt (k a m : Nat) (e : Int)
+    (h1 : 0 ≤ e → m * 2 ^ e.toNat < k) (h2 : e < 0 → m < k * 2 ^ (-e).toNat) :
+    ¬ ValLE (k * 2 ^ a) (-(a : Int)) m e := by
+  unfold ValLE
+  by_cases he : 0 ≤ e
+  · have hmin : min (-(a : Int)) e = -(a : Int) := by omega
+    rw [hmin, Int.sub_self, Int.toNat_zero, Nat.pow_zero, Nat.mul_one,
+      show (e - -(a : Int)).toNat = e.toNat + a by omega, Nat.pow_add, ← Nat.mul_assoc]
+    exact Nat.not_le.mpr (Nat.mul_lt_mul_of_pos_right (h1 he) (Nat.pow_pos (by decide)))
+  · have h2' := h2 (by omega)
+    obtain ⟨c, hc⟩ : ∃ c : Nat, e = -(c : Int) := ⟨(-e).toNat, by omega⟩
+    subst hc
+    rw [show (- -(c : Int)).toNat = c by omega] at h2'
+    by_cases hac : a ≤ c
+    · have hmin : min (-(a : Int)) (-(c : Int)) = -(c : Int) := by omega
+      rw [hmin, Int.sub_self, Int.toNat_zero, Nat.pow_zero, Nat.mul_one,
+        show (-(a : Int) - -(c : Int)).toNat = c - a by omega, Nat.mul_assoc, ← Nat.pow_add,
+        show a + (c - a) = c by omega]
+      exact Nat.not_le.mpr h2'
+    · have hmin : min (-(a : Int)) (-(c : Int)) = -(a : Int) := by omega
+      rw [hmin, Int.sub_self, Int.toNat_zero, Nat.pow_zero, Nat.mul_one,
+        show (-(c : Int) - -(a : Int)).toNat = a - c by omega]
+      apply Nat.not_le.mpr
+      calc m * 2 ^ (a - c) < k * 2 ^ c * 2 ^ (a - c) := Nat.mul_lt_mul_of_pos_right h2' (Nat.pow_pos (by decide))
+        _ = k * 2 ^ a := by rw [Nat.mul_assoc, ← Nat.pow_add, show c + (a - c) = a by omega]
+
+
+/-! ## `Float32` -/
+
+theorem isFin_abs {u : UnpackedFloat} {s : Sign} {m : Nat} {e : Int} (h : IsFin u s m e) : IsFin u.abs .positive m e := by
+  obtain ⟨hm, rfl⟩ := h; exact ⟨hm, rfl⟩
+
+/-- a finite non-zero `f32` unpacks to `± magM · 2^magE`, a canonical pair. -/
+theorem up32_fin (y : Float32) (h0 : mag fmt32 y.toBits.toNat ≠ 0) (hfin : mag fmt32 y.toBits.toNat < fmt32.infBits) :
+    IsFin y.toModel.unpack (FM.signOf (y.toBits.toNat / 2 ^ 31)) (magM fmt32 y.toBits.toNat) (magE fmt32 y.toBits.toNat) ∧
+    CanonFin Format.binary32 (magM fmt32 y.toBits.toNat) (magE fmt32 y.toBits.toNat) := by
+  have h := unpackNat32_fin _ h0 hfin
+  rw [← FM.float32_unpack] at h
+  refine ⟨h, ?_⟩
+  have hc := FX.canon_float32 y
+  obtain ⟨hm, he⟩ := h
+  rw [he] at hc
+  exact hc
+
+theorem up32_abs_fin (y : Float32) (h0 : mag fmt32 y.toBits.toNat ≠ 0) (hfin : mag fmt32 y.toBits.toNat < fmt32.infBits) :
+    IsFin (Scalar.abs y : Float32).toModel.unpack .positive (magM fmt32 y.toBits.toNat) (magE fmt32 y.toBits.toNat) := by
+  rw [up_abs32]; exact isFin_abs (up32_fin y h0 hfin).1
+
+theorem up32_abs_zero (y : Float32) (h0 : mag fmt32 y.toBits.toNat = 0) :
+    (Scalar.abs y : Float32).toModel.unpack = .zero .positive := by
+  rw [up_abs32, FM.float32_unpack, unpackNat32_zero _ h0]; rfl
+
+/-- **`|a| ≤ |b|` in the IEEE order is the comparison of the exact magnitudes** (finite non-zero `f32`). -/
+theorem abs_le_abs32 (a b : Float32)
+    (ha0 : mag fmt32 a.toBits.toNat ≠ 0) (ha : mag fmt32 a.toBits.toNat < fmt32.infBits)
+    (hb0 : mag fmt32 b.toBits.toNat ≠ 0) (hb : mag fmt32 b.toBits.toNat < fmt32.infBits) :
+    Scalar.le (Scalar.abs a) (Scalar.abs b) = true ↔
+      ValLE (magM fmt32 a.toBits.toNat) (magE fmt32 a.toBits.toNat) (magM fmt32 b.toBits.toNat) (magE fmt32 b.toBits.toNat) := by
+  obtain ⟨h1, e1⟩ := up32_abs_fin a ha0 ha
+  obtain ⟨h2, e2⟩ := up32_abs_fin b hb0 hb
+  rw [le_float32, e1, e2]
+  exact le_fin_pos_iff_valLE h1 h2 (up32_fin a ha0 ha).2 (up32_fin b hb0 hb).2
+
+theorem not_nan_of_mag32 (y : Float32) (h : mag fmt32 y.toBits.toNat ≤ fmt32.infBits) : Scalar.isNaN y = false := by
+  cases hn : Scalar.isNaN y
+  · rfl
+  · have := FM.float32_isNaN_of_pattern y hn
+    unfold mag at h; rw [sign32, inf32] at h; omega
+
+/-! ### the pattern of `Float32.ofInt z` -/
+
+/-- the `f32` of the integer `0 < |z| < 2^23`: magnitude pattern finite and non-zero, and `|z| = magM · 2^magE` exactly
+with `magE ≤ 0`. -/
+theorem ofInt_mag32 (z : Int) (h0 : z ≠ 0) (hz : z.natAbs < 2 ^ 23) :
+    mag fmt32 (Float32.ofInt z).toBits.toNat ≠ 0 ∧ mag fmt32 (Float32.ofInt z).toBits.toNat < fmt32.infBits ∧
+    ∃ a : Nat, magE fmt32 (Float32.ofInt z).toBits.toNat = -(a : Int) ∧
+      magM fmt32 (Float32.ofInt z).toBits.toNat = z.natAbs * 2 ^ a := by
+  have hn : 0 < z.natAbs := by omega
+  obtain ⟨f1, f2, f3, f4⟩ := FM.intPat32_fields hn (by omega : z.natAbs < 2 ^ 24)
+  have hmag : mag fmt32 (Float32.ofInt z).toBits.toNat = FM.intPat32 z.natAbs := by
+    rw [FM.float32_ofInt_bits z hz]
+    unfold intBits mag
+    rw [FM.roundRat_int_eq32 hn (by omega), sign32]
+    split <;> omega
+  obtain ⟨_, hexp, hmant⟩ := FM.intPattern_intPat32 hn (by omega : z.natAbs < 2 ^ 24)
+  unfold magM magE
+  rw [hmag, inf32]
+  refine ⟨by omega, f4, (-(decompose fmt32 (FM.intPat32 z.natAbs)).2).toNat, by omega, hmant⟩
+
+
+/-! ### the coordinate limit, from the pattern to `InCoord` (`f32`; the `f64` version is `FCO.inCoord_of_mag64`) -/
+
+theorem unpackNat_of_mag32 (n : Nat) (h : n % 2 ^ 31 ≤ 0x48000000) :
+    (FM.unpackNat 23 8 n).isNaN = false ∧ ¬ KLt (1, -6, 2 ^ 23) (key (FM.unpackNat 23 8 n)) ∧
+    ¬ KLt (key (FM.unpackNat 23 8 n)) (-1, 6, -(2 ^ 23)) := by
+  unfold FM.unpackNat
+  have he : ¬ (n / 2 ^ 23 % 2 ^ 8 = 2 ^ 8 - 1) := by omega
+  rw [if_neg he]
+  by_cases h0 : n / 2 ^ 23 % 2 ^ 8 = 0
+  · rw [if_pos h0]
+    by_cases hf : n % 2 ^ 23 = 0
+    · rw [dif_pos hf]; simp [key, KLt, UnpackedFloat.isNaN]
+    · rw [dif_neg hf]
+      by_cases ht : n / 2 ^ (23 + 8) = 0
+      · simp [FM.signOf, ht, key, KLt, UnpackedFloat.isNaN, h0]
+      · simp [FM.signOf, ht, key, KLt, UnpackedFloat.isNaN, h0]
+  · rw [if_neg h0]
+    by_cases ht : n / 2 ^ (23 + 8) = 0
+    · simp [FM.signOf, ht, key, KLt, UnpackedFloat.isNaN]
+      omega
+    · simp [FM.signOf, ht, key, KLt, UnpackedFloat.isNaN]
+      omega
+
+/-- an `f32` whose magnitude pattern is at most that of `131072.0` is within the coordinate limit. -/
+theorem inCoord_of_mag32 (y : Float32) (h : y.toBits.toNat % 2 ^ 31 ≤ 0x48000000) : InCoord y := by
+  have hu : IeeeOrd.up y = FM.unpackNat 23 8 y.toBits.toNat := FM.float32_unpack y
+  obtain ⟨h1, h2, h3⟩ := unpackNat_of_mag32 _ h
+  have hn : Scalar.isNaN y = false := by rw [IeeeOrd.isNaN_eq, hu]; exact h1
+  refine ⟨(lt_false_iff _ _).mpr (Or.inr (Or.inr ?_)), (lt_false_iff _ _).mpr (Or.inr (Or.inr ?_)), hn⟩
+  · rw [FCO.key_neg_coord32, hu]; exact h3
+  · rw [FCO.key_coord32, hu]; exact h2
+
+theorem intPat32_arith (L m : Nat) (hL : L ≤ 17) (h17 : L = 17 → m = 2 ^ 23) (b1 : 2 ^ 23 ≤ m) (b2 : m < 2 ^ 24) :
+    (127 + L) * 2 ^ 23 + (m - 2 ^ 23) ≤ 0x48000000 := by
+  omega
+
+theorem intPat32_le_coord {n : Nat} (hn : 0 < n) (hle : n ≤ 131072) : FM.intPat32 n ≤ 0x48000000 := by
+  obtain ⟨b1, b2, b3⟩ := FM.intM_bounds32 hn (by omega : n < 2 ^ 24)
+  have hL : n.log2 < 18 := (Nat.log2_lt (by omega)).mpr (by omega)
+  refine intPat32_arith _ _ (by omega) (fun h => ?_) b1 b2
+  rw [h] at b1 ⊢
+  have e : (23 : Nat) - 17 = 6 := rfl
+  rw [e] at b1 ⊢
+  omega
+
+/-- the pattern of an integer within ±131072 has magnitude at most that of `131072.0`. -/
+theorem intBits_mag32 (z : Int) (hz : z.natAbs ≤ 131072) : intBits fmt32 z % 2 ^ 31 ≤ 0x48000000 := by
+  unfold intBits
+  by_cases h0 : z.natAbs = 0
+  · have hr : roundRat fmt32 0 1 = 0 := by unfold roundRat; simp
+    rw [h0, hr, sign32]
+    split <;> omega
+  · rw [FM.roundRat_int_eq32 (by omega) (by omega), sign32]
+    have := intPat32_le_coord (by omega : 0 < z.natAbs) hz
+    split <;> omega
+
+
+/-! ### `x as i32 as f32` of a coordinate -/
+
+theorem sat32_inv {t z : Int} (h : sat32 t = z) (h1 : -2147483648 < z) (h2 : z < 2147483647) : t = z := by
+  unfold sat32 at h; revert h; split <;> (try split) <;> omega
+
+/-- the integer a coordinate truncates to: within ±131072, and `|z| = ⌊|x|⌋` (no saturation). -/
+theorem toI32_coord32 (x : Float32) (h : InCoord x) :
+    -131072 ≤ (Scalar.toI32 x : Int) ∧ (Scalar.toI32 x : Int) ≤ 131072 ∧
+    mag fmt32 x.toBits.toNat < fmt32.infBits ∧
+    (Scalar.toI32 x : Int) = truncInt fmt32 x.toBits.toNat ∧
+    (Scalar.toI32 x : Int).natAbs = truncMag (magM fmt32 x.toBits.toNat) (magE fmt32 x.toBits.toNat) := by
+  have hmag := FCO.inCoord_mag32 x h
+  obtain ⟨z1, z2⟩ := FCO.toI32Bits_coord32 x.toBits.toNat hmag
+  have hfin : mag fmt32 x.toBits.toNat < fmt32.infBits := by unfold mag; rw [sign32, inf32]; omega
+  have hspec := toI32Bits_spec fmt32 (by decide) x.toBits.toNat hfin
+  have ht : truncInt fmt32 x.toBits.toNat = toI32Bits fmt32 x.toBits.toNat :=
+    sat32_inv hspec.symm (by omega) (by omega)
+  refine ⟨z1, z2, hfin, ht.symm, ?_⟩
+  show (toI32Bits fmt32 x.toBits.toNat).natAbs = _
+  rw [← ht, truncInt_natAbs]
+
+theorem ofInt_zero_abs32 : (Scalar.abs (Float32.ofInt 0) : Float32).toModel.unpack = .zero .positive :=
+  up32_abs_zero _ (by decide +kernel)
+
+theorem zero_le_abs_of_finite (u : UnpackedFloat) (h : u.isFinite = true) :
+    (UnpackedFloat.zero .positive).le u.abs = true := by
+  cases u <;> first | rfl | cases h
+
+theorem zero_lt_fin_pos (m : Nat) (e : Int) (hm : 0 < m) :
+    (UnpackedFloat.zero .positive).lt (.finite .positive m e hm) = true := rfl
+
+theorem fin_neg_lt_zero (m : Nat) (e : Int) (hm : 0 < m) :
+    (UnpackedFloat.finite .negative m e hm).lt (.zero .positive) = true := rfl
+
+/-- **a stored position**: for an `f32` `x` within the coordinate limit (the parser's `parse_with_limits` test), with
+`z = x as i32` and `s = z as f32`:
+the integer is within ±131072; `s` is exactly the integer `z` (pattern `intBits fmt32 z`), a number within the limit;
+`s` is a fixed point of truncation (`s as i32 = z`, `s as i32 as f32 = s`); `|s| ≤ |x| < |z| + 1` in the IEEE order (the
+right-hand side is the `f32` of the integer `|z| + 1`, exact); the sign of `z` is the sign of `x`. -/
+theorem trunc_coord32 (x : Float32) (h : InCoord x) :
+    -131072 ≤ (Scalar.toI32 x : Int) ∧ (Scalar.toI32 x : Int) ≤ 131072 ∧
+    (Scalar.ofInt (Scalar.toI32 x) : Float32).toBits.toNat = intBits fmt32 (Scalar.toI32 x) ∧
+    InCoord (Scalar.ofInt (Scalar.toI32 x) : Float32) ∧
+    Scalar.toI32 (Scalar.ofInt (Scalar.toI32 x) : Float32) = Scalar.toI32 x ∧
+    Scalar.le (Scalar.abs (Scalar.ofInt (Scalar.toI32 x) : Float32)) (Scalar.abs x) = true ∧
+    Scalar.lt (Scalar.abs x) (Scalar.ofInt (((Scalar.toI32 x : Int).natAbs : Int) + 1) : Float32) = true ∧
+    ((Scalar.toI32 x : Int) < 0 → Scalar.lt x (0 : Float32) = true) ∧
+    (0 < (Scalar.toI32 x : Int) → Scalar.lt (0 : Float32) x = true) := by
+  obtain ⟨z1, z2, hfin, htr, habs⟩ := toI32_coord32 x h
+  generalize hz : (Scalar.toI32 x : Int) = z at *
+  have hbits : (Float32.ofInt z).toBits.toNat = intBits fmt32 z := FM.float32_ofInt_bits z (by omega)
+  have hxn : Scalar.isNaN x = false := h.2.2
+  have hxan : Scalar.isNaN (Scalar.abs x) = false := by rw [isNaN_abs_float32]; exact hxn
+  obtain ⟨t1, t2⟩ := truncMag_le (magM fmt32 x.toBits.toNat) (magE fmt32 x.toBits.toNat)
+  rw [← habs] at t1 t2
+  refine ⟨z1, z2, hbits, ?_, ?_, ?_, ?_, ?_, ?_⟩
+  · show InCoord (Float32.ofInt z)
+    exact inCoord_of_mag32 _ (by rw [hbits]; exact intBits_mag32 z (by omega))
+  · show toI32Bits fmt32 (Float32.ofInt z).toBits.toNat = z
+    rw [hbits]
+    exact FCO.toI32Bits_intBits fmt32 (by decide) (by decide) (by decide) z (by show z.natAbs < 2 ^ 24; omega) (by omega)
+  · -- |s| ≤ |x|
+    show Scalar.le (Scalar.abs (Float32.ofInt z)) (Scalar.abs x) = true
+    by_cases hz0 : z = 0
+    · subst hz0
+      rw [le_float32, ofInt_zero_abs32, up_abs32]
+      apply zero_le_abs_of_finite
+      by_cases hm0 : mag fmt32 x.toBits.toNat = 0
+      · rw [FM.float32_unpack, unpackNat32_zero _ hm0]; rfl
+      · obtain ⟨_, e⟩ := (up32_fin x hm0 hfin).1; rw [e]; rfl
+    · have hm0 : mag fmt32 x.toBits.toNat ≠ 0 := by
+        intro hm0
+        have : toI32Bits fmt32 x.toBits.toNat = 0 := toI32Bits_zero fmt32 (by decide) _ hm0
+        exact hz0 (hz ▸ this)
+      obtain ⟨s0, sfin, a, sE, sM⟩ := ofInt_mag32 z hz0 (by omega)
+      rw [abs_le_abs32 _ _ s0 sfin hm0 hfin, sE, sM]
+      exact valLE_int_le _ _ _ _ (fun he => Nat.le_of_eq (t1 he)) t2
+  · -- |x| < |z| + 1
+    have hk0 : ((z.natAbs : Int) + 1) ≠ 0 := by omega
+    have hkabs : ((z.natAbs : Int) + 1).natAbs = z.natAbs + 1 := by omega
+    obtain ⟨s0, sfin, a, sE, sM⟩ := ofInt_mag32 ((z.natAbs : Int) + 1) hk0 (by omega)
+    rw [hkabs] at sM
+    have hwbits := FM.float32_ofInt_bits ((z.natAbs : Int) + 1) (by omega)
+    have hwsign : (Float32.ofInt ((z.natAbs : Int) + 1)).toBits.toNat / 2 ^ 31 = 0 := by
+      rw [hwbits]; unfold intBits
+      rw [if_neg (by omega), hkabs, FM.roundRat_int_eq32 (by omega) (by omega)]
+      have := (FM.intPat32_fields (by omega : 0 < z.natAbs + 1) (by omega)).2.2.2
+      omega
+    obtain ⟨⟨hwm, hwe⟩, hwc⟩ := up32_fin _ s0 sfin
+    rw [hwsign] at hwe
+    show Scalar.lt (Scalar.abs x) (Float32.ofInt ((z.natAbs : Int) + 1)) = true
+    by_cases hm0 : mag fmt32 x.toBits.toNat = 0
+    · rw [lt_float32, up32_abs_zero x hm0, hwe]; rfl
+    · have hwn : Scalar.isNaN (Float32.ofInt ((z.natAbs : Int) + 1)) = false := not_nan_of_mag32 _ (Nat.le_of_lt sfin)
+      apply lt_of_not_le _ _ hxan hwn
+      cases hle : Scalar.le (Float32.ofInt ((z.natAbs : Int) + 1)) (Scalar.abs x)
+      · rfl
+      · exfalso
+        obtain ⟨hxm, hxe⟩ := up32_abs_fin x hm0 hfin
+        rw [le_float32, hwe, hxe] at hle
+        have hv := (le_fin_pos_iff_valLE hwm hxm hwc (up32_fin x hm0 hfin).2).mp hle
+        rw [sE, sM] at hv
+        refine not_valLE_int_gt _ _ _ _ (fun he => ?_) (fun he => ?_) hv
+        · rw [← t1 he]; omega
+        · have := lt_truncMag_succ (magM fmt32 x.toBits.toNat) _ he
+          rw [← habs] at this; exact this
+  · -- sign, negative
+    intro hneg
+    have hsg := (toI32Bits_sign fmt32 (by decide) x.toBits.toNat hfin).1 (by show (Scalar.toI32 x : Int) < 0; rw [hz]; exact hneg)
+    have hm0 : mag fmt32 x.toBits.toNat ≠ 0 := by
+      intro hm0
+      have : toI32Bits fmt32 x.toBits.toNat = 0 := toI32Bits_zero fmt32 (by decide) _ hm0
+      have : z = 0 := hz ▸ this
+      omega
+    obtain ⟨hxm, hxe⟩ := (up32_fin x hm0 hfin).1
+    have hs : FM.signOf (x.toBits.toNat / 2 ^ 31) = .negative := by
+      unfold negBit at hsg; rw [sign32] at hsg
+      unfold FM.signOf; rw [if_neg (by omega)]
+    rw [lt_float32, hxe, hs, FX.unpack_zero_float32]; rfl
+  · intro hpos
+    have hsg := (toI32Bits_sign fmt32 (by decide) x.toBits.toNat hfin).2 (by show 0 < (Scalar.toI32 x : Int); rw [hz]; exact hpos)
+    have hm0 : mag fmt32 x.toBits.toNat ≠ 0 := by
+      intro hm0
+      have : toI32Bits fmt32 x.toBits.toNat = 0 := toI32Bits_zero fmt32 (by decide) _ hm0
+      have : z = 0 := hz ▸ this
+      omega
+    obtain ⟨hxm, hxe⟩ := (up32_fin x hm0 hfin).1
+    have hlt : x.toBits.toNat < 2 ^ 32 := x.toBits.toNat_lt
+    have hs : FM.signOf (x.toBits.toNat / 2 ^ 31) = .positive := by
+      unfold negBit at hsg; rw [sign32] at hsg
+      unfold FM.signOf; rw [if_pos (by omega)]
+    rw [lt_float32, hxe, hs, FX.unpack_zero_float32]; rfl
+
+/-! ### non-vacuity: closed coordinates, evaluated by the kernel -/
+
+/-- `InCoord` holds of `-2.75`, `131071.99`, `-131072`, `-0.0`, `0.3` … -/
+example : ∀ a ∈ [Float32.ofBits 0xC0300000, Float32.ofBits 0x47FFFFFF, -131072, -(0 : Float32), Float32.ofBits 0x3E99999A],
+    InCoord a := by decide +kernel
+
+/-- … and the conclusions of `trunc_coord32` as the kernel computes them for `-2.75f32`: `z = -2`, `s = -2.0`,
+`|s| = 2 ≤ 2.75 < 3`, and `-0.0 as i32 as f32 = +0.0` (not `-0.0`: the stored zero is always positive). -/
+example : (Scalar.toI32 (Float32.ofBits 0xC0300000) : Int) = -2 ∧
+    (Scalar.ofInt (-2) : Float32).toBits = 0xC0000000 ∧
+    Scalar.le (Scalar.abs (Scalar.ofInt (-2) : Float32)) (Scalar.abs (Float32.ofBits 0xC0300000)) = true ∧
+    Scalar.lt (Scalar.abs (Float32.ofBits 0xC0300000)) (Scalar.ofInt 3 : Float32) = true ∧
+    Scalar.lt (Float32.ofBits 0xC0300000) (0 : Float32) = true ∧
+    (Scalar.ofInt (Scalar.toI32 (-(0 : Float32))) : Float32).toBits = 0 ∧
+    (Scalar.toI32 (Float32.ofBits 0x47FFFFFF) : Int) = 131071 := by decide +kernel
+
+/-- outside the limit nothing of the sort holds: `3e9f32 as i32` saturates to `i32::MAX`, whose `f32` is `2^31` (not an
+`i32` any more): the parser's limit is what makes `as i32 as f32` idempotent. -/
+example : ¬ InCoord (Float32.ofBits 0x4F32D05E) ∧ (Scalar.toI32 (Float32.ofBits 0x4F32D05E) : Int) = 2147483647 ∧
+    (Scalar.toI32 (Scalar.ofInt 2147483647 : Float32) : Int) = 2147483647 ∧
+    (Scalar.ofInt 2147483647 : Float32).toBits = 0x4F000000 := by decide +kernel
+
+end F32
 
 end Rosu.FTR
